@@ -5,6 +5,7 @@ sys.path.insert(0, '/verif')
 from pyvc.extract import ensure_repo_on_path
 ensure_repo_on_path()
 from pyvc import contracts as C, verify as V
+import logging; logging.disable(logging.CRITICAL)
 C.load_all()
 pat = sys.argv[1:] or ['']
 for key, c in C.REGISTRY.items():
